@@ -8,7 +8,7 @@ The Lean driver prints the model's plan (interpreting Gen/TlsCalls.lean) and the
 OpenSSL semantics.  The matrix is exhaustive in both tiers; thorough adds ET/LT x batching, the sync API and the
 full HttpClient / HttpServer matrices.
 """
-import os, json
+import os, json, re
 from vlib.core import Ctx, ModelBuildError, load_known_findings
 
 ID = "C07"
@@ -58,13 +58,13 @@ OBLIGATIONS = [
     {"id": "C07_T5_http_server", "theorem": "Iora.C07.T5_http_server_flags", "kind": "proved",
      "statement": "HttpServer: requireClientCert => SSL_VERIFY_PEER | SSL_VERIFY_FAIL_IF_NO_PEER_CERT on the listener's context"},
     {"id": "C07_T6_client", "theorem": "Iora.C07.T6_client_matrix", "kind": "proved",
-     "statement": "forall H assumed, every one of the 3600 client cells: announced <-> Spec.cliAdmissible, version >= 1.2, never plain"},
+     "statement": "forall H assumed, every one of the 5040 client cells (7 server-certificate kinds incl. CN=host with SAN=other host, and CN-only): announced <-> Spec.cliAdmissible, version >= 1.2, never plain"},
     {"id": "C07_T6_server", "theorem": "Iora.C07.T6_server_matrix", "kind": "proved",
-     "statement": "forall H assumed, every one of the 7200 server cells: admitted <-> Spec.srvAdmissible, version >= 1.2, never plain"},
+     "statement": "forall H assumed, every one of the 10080 server cells: admitted <-> Spec.srvAdmissible, version >= 1.2, never plain"},
     {"id": "C07_T6_http_refuted", "theorem": "Iora.C07.T6_http_refuted", "kind": "refuted", "finding": "F20-http",
      "statement": "NOT (HttpClient matrix: response returned <-> Spec.httpAdmissible in every cell): witness verify, caFile=issuing CA, cert for other.example, https://localhost"},
     {"id": "C07_T6_http_partial", "theorem": "Iora.C07.T6_http_partial", "kind": "partial",
-     "statement": "forall H assumed, every one of the 2160 HttpClient cells: outside the carve-out nameUnchecked the decision is exact; always version >= 1.2 and never plain"},
+     "statement": "forall H assumed, every one of the 3024 HttpClient cells: outside the carve-out nameUnchecked the decision is exact; always version >= 1.2 and never plain"},
     {"id": "C07_T6_only_if", "theorem": "Iora.C07.T6_client_only_if", "kind": "proved",
      "statement": "the property's 'only if' spelled out: announced with verification on => chain, validity, name (by-name), possession, >= TLS 1.2"},
     {"id": "C07_T7_silent", "theorem": "Iora.C07.T7_tls_session_never_clear", "kind": "proved",
@@ -89,7 +89,7 @@ ANCHOR_FILES = ["include/iora/network/detail/tcp_engine.hpp", "include/iora/netw
 FINDING_HTTP_NAME = "http:verify=1,url=name,scert=wrongname"
 
 CEILS = ["10", "11", "12", "13"]
-SCERTS = ["valid", "self", "expired", "wrongname", "mismatch"]
+SCERTS = ["valid", "self", "expired", "wrongname", "mismatch", "sanother", "cnonly"]
 TRUSTS = ["right", "wrong", "none"]
 CCERTS = ["none", "cvalid", "cuntrusted"]
 MINS = ["0", "769", "770", "771", "772"]
@@ -310,11 +310,14 @@ CERT_FACTS = {  # by construction of the certificate factory (and confirmed by t
     "valid": dict(issuer="right", time=True, name=True, key=True), "self": dict(issuer="self", time=True, name=True, key=True),
     "expired": dict(issuer="right", time=False, name=True, key=True), "wrongname": dict(issuer="right", time=True, name=False, key=True),
     "mismatch": dict(issuer="right", time=True, name=True, key=False),
+    # subject CN = host but the dNSName SAN names another host only: NOT an identity for the host; CN only, no SAN: is one
+    "sanother": dict(issuer="right", time=True, name=False, key=True), "cnonly": dict(issuer="right", time=True, name=True, key=True),
     "cvalid": dict(issuer="right", time=True, key=True), "cuntrusted": dict(issuer="wrong", time=True, key=True), "cexpired": dict(issuer="right", time=False, key=True),
 }
 CERTTABLE_EXPECT = ("valid:right=1,wrong=0,time=1,name=1,ip=1,key=1 self:right=0,wrong=0,time=1,name=1,ip=1,key=1 "
                     "expired:right=1,wrong=0,time=0,name=1,ip=1,key=1 wrongname:right=1,wrong=0,time=1,name=0,ip=0,key=1 "
-                    "mismatch:right=1,wrong=0,time=1,name=1,ip=1,key=0 cvalid:right=1,wrong=0,time=1,name=0,ip=0,key=1 "
+                    "mismatch:right=1,wrong=0,time=1,name=1,ip=1,key=0 sanother:right=1,wrong=0,time=1,name=0,ip=0,key=1 "
+                    "cnonly:right=1,wrong=0,time=1,name=1,ip=0,key=1 cvalid:right=1,wrong=0,time=1,name=0,ip=0,key=1 "
                     "cuntrusted:right=0,wrong=1,time=1,name=0,ip=0,key=1 cexpired:right=1,wrong=0,time=0,name=0,ip=0,key=1")
 
 
@@ -384,6 +387,20 @@ def monitor(op, impl):
     anon_enabled = c["opts"].get("ciphers") == "seclevel0" and c.get("peer") == "anon"
     connected, appdata, clear = o.get("connected") == "1", o.get("appdata") == "1", o.get("cleartext") == "1"
     finding = None
+    hs = re.search(r"hs=\(verify=([^,]*),depth=(-?\d+),hostflags=(\d+),host=([^)]*)\)", o.get("plan", ""))
+    if hs:
+        hv, hd, hf, hh = hs.group(1), int(hs.group(2)), int(hs.group(3)), hs.group(4)
+        if hf != 0:
+            bad.append("name-policy: the SSL object entered its handshake with X509 host flags %#x (the name check must run with the library default, 0: "
+                       "e.g. ALWAYS_CHECK_SUBJECT accepts a subject CN although the dNSName SAN names other hosts)" % hf)
+        if c.get("verify") and c["kind"] in ("cli", "srv", "http", "hurl", "hsrv") and "PEER" not in hv.split("+"):
+            bad.append("verify-mode: verification is configured on but the SSL object entered its handshake with verify mode %s" % hv)
+        if c.get("verify") and c["kind"] in ("srv", "hsrv") and "FAIL_IF_NO_PEER_CERT" not in hv.split("+"):
+            bad.append("verify-mode: client certificates are required but the SSL object entered its handshake with verify mode %s" % hv)
+        if c.get("verify") and c["kind"] == "cli" and c.get("target") == "name" and hh != "localhost":
+            bad.append("name-binding: connecting by name with verification on, but the host bound on the SSL object at handshake time is %r" % hh)
+        if hd != 4:
+            bad.append("verify-depth: the SSL object entered its handshake with verify depth %d (configured: 4)" % hd)
     if c["req"] != "none" and clear:
         bad.append("no-downgrade: a session requested with TLS carried application bytes in clear text (plan=%s)" % o.get("plan"))
     if c["req"] != "none" and o.get("plan") == "plain":
@@ -529,7 +546,13 @@ def run(ctx: Ctx):
             if finding:
                 finding_cells.append((op, il, ml))
             if fails:
-                ctx.violation("property", fails[0], {"ops": [op], "observed": [il], "expected_by_model": [ml], "failures": fails, "category": c["cat"]}, found_input=True)
+                # one report per failing monitor class of the cell (a read-back failure must not hide the authentication failure it causes)
+                seen_cls = set()
+                for f in fails:
+                    k = f.split(":")[0]
+                    if k not in seen_cls:
+                        seen_cls.add(k)
+                        ctx.violation("property", f, {"ops": [op], "observed": [il], "expected_by_model": [ml], "failures": fails, "category": c["cat"]}, found_input=True)
             elif head(il) != ml and not (c["cat"] == "url-odd" or il.startswith("plan=skip")):
                 mism.append((c, il, ml))
             if il.startswith("plan=skip"):
